@@ -475,8 +475,20 @@ def run_impl(hz, runs, rng, keep=False):
         shutil.rmtree(root, ignore_errors=True)
         shutil.rmtree(root + '.targets', ignore_errors=True)
         materialize(r.tree, root, rng, r.order)
-        out = hz.req('dir %s %s %s' % (hx(root), r.cat, ','.join(r.ps) if r.ps else '-'))
-        r.listing, r.impl = parse_dir_output(out)
+        line = 'dir %s %s %s' % (hx(root), r.cat, ','.join(r.ps) if r.ps else '-')
+        try:
+            out = hz.req(line)
+            r.listing, r.impl = parse_dir_output(out)
+        except vlib.BuildError as e:
+            if 'died on request' not in str(e):
+                raise
+            # the process was killed while analysing this tree (stack overflow, abort): for the user of the library this is an
+            # abort of the run like a panic.  The listing is obtained from a fresh process with an empty pattern list.
+            hz.restart()
+            r.extra['process_died'] = True
+            out = hz.req('dir %s %s -' % (hx(root), r.cat))
+            r.listing, _ = parse_dir_output(out)
+            r.impl = 'PANIC'
         r.root = root
         if not keep:
             shutil.rmtree(root, ignore_errors=True)
